@@ -16,9 +16,10 @@ PY_CORE = "PyLibCore PySrcCore PySrcCoreFacts"                    # succession_d
 PY_CORE2 = PY_CORE + " PyLibCore2 PySrcCore2 PySrcCore2Facts PySrcInitFacts"    # succession_diagram.py: skip_to_minimal, skip_remaining, depth, reclaim_node_data
 PY_MIN = "PyLib PyLibSd PyLibCore PyLibSd2 PySrcSdBase PySrcSdMin PySrcSdMinFacts"   # _sd_algorithms/expand_minimal_spaces.py
 PY_PERC = "PyLib PyLibSd PyLibPerc PySrcPerc PySrcPercFacts PyLibDrivers PySrcDrivers PySrcDriversFacts"       # space_utils.percolate_space_strict, percolation_conflicts
+PY_CONTROL = "PyLib PyLibSd PyLibPerc PyLibCore PyLibControl PySrcControl PySrcControlFacts"    # control.find_drivers, drivers_of_succession
 PY_ASEEDS = PY_MIN + " Candidates Blocks ASeeds PySrcSdASeeds PySrcSdASeedsFacts"     # _sd_algorithms/expand_attractor_seeds.py
 EXTRA_IMPORTS = {"C02": PY_SD + " " + PY_CORE2 + " PySrcEndToEnd", "C03": PY_SD + " " + PY_ASEEDS + " PySrcComplFacts", "C04": PY_SD + " " + PY_CORE, "C05": PY_CORE2 + " " + PY_MIN, "C13": PY_SD + " " + PY_TARGET + " " + PY_ASEEDS + " PySrcTermFacts", "C14": PY_CORE2, "C15": PY_SD + " " + PY_TARGET + " " + PY_ASEEDS, "C16": "PyLib PyLibPickle PySrcPickle PySrcPickleFacts " + PY_CORE2,
-                 "C06": PY_SPACE + " " + PY_TARGET + " PySrcEndToEndControl", "C10": PY_PLACE, "C11": PY_PERC, "C19": PY_SD + " " + PY_CORE, "C20": PY_KEY + " " + PY_CORE2}
+                 "C06": PY_SPACE + " " + PY_TARGET + " PySrcEndToEndControl", "C07": PY_CONTROL, "C10": PY_PLACE, "C11": PY_PERC, "C19": PY_SD + " " + PY_CORE, "C20": PY_KEY + " " + PY_CORE2}
 
 def imports_for(pid):
     extra = EXTRA_IMPORTS.get(pid)
@@ -282,7 +283,8 @@ Model: Control.find_drivers (size classes in ascending order, supersets of found
 successions_spec / successions_nodup: the successions are exactly the chains of reduced motifs along all root
 paths to the end nodes, one motif per edge, each once; target_expansion_post: what the target-directed
 expansion expands.""",
- theorems=[("find_drivers_sound", "find_drivers_sound", "forcing, allowed variables only, within the size bound"),
+ theorems=[("source_drivers_of_succession", "py_drivers_of_succession_spec", "translator tie: the function GENERATED from the current text of control.drivers_of_succession (PySrcControl.v) computes the model's drivers_of_succession (per-step default bound, assumption grown by the LDOI of each step)"),
+           ("find_drivers_sound", "find_drivers_sound", "forcing, allowed variables only, within the size bound"),
            ("find_drivers_complete", "find_drivers_complete", "every admissible forcing assignment has a reported driver set on a subset of its variables"),
            ("find_drivers_minimal", "find_drivers_minimal", "no reported set strictly inside another"),
            ("subsets_of_size_spec", "subsets_of_size_spec", None),
